@@ -127,6 +127,15 @@ CLAIMS = {
                 'must observe exactly its solo behaviour.',
         'note': _NOTE + '; thread pre-emption inside an activation is outside the claim',
     },
+    'C20': {
+        'text': 'One path family per entry of an operation x ready-state table covering the whole '
+                'list of the statement; numeric arguments (dates at/before now, amounts 0..'
+                'available, volumes, periods incl. 0) are symbolic, so e.g. "amount == 0" or '
+                '"body time == period" are solver-found corner cases, not sampled values; fresh '
+                'runnable spinners must get a turn before the operation completes unless the '
+                'clock advanced.',
+        'note': _NOTE,
+    },
 }
 
 NOT_APPLICABLE = {}
